@@ -92,7 +92,7 @@ def h_dense(I, job):
     msg = []
     for c in job['layout']: msg += fields[c]
     buf = put(I, msg); out = I.new_obj(4 * NODE_DUMP, 'out', 'heap'); ol = I.new_obj(4, 'ol', 'heap')
-    rc = I.concretize(I.call('@verif_primitive_block', [buf, len(msg), 1, out, 4 * NODE_DUMP, ol]), 'rc'); I.observe('rc', rc)
+    rc = I.concretize(I.call('@verif_primitive_block', [buf, len(msg), job.get('meta', 1), out, 4 * NODE_DUMP, ol]), 'rc'); I.observe('rc', rc)
     if rc != 0: raise Finding('rejects-valid', 'spec-conformant PrimitiveBlock rejected (rc=%d)' % rc)
     n = I.concretize(I.load(ol, i32), 'dumplen'); I.observe('dumplen', n)
     if n != 2 * NODE_DUMP: raise Finding('object-count', 'dump has %d bytes, expected two plain nodes (%d)' % (n, 2 * NODE_DUMP))
@@ -471,7 +471,7 @@ def harnesses(tier):
         Harness('o5m_string_table', 'decode', h_reftable, jobs=[{'start': s} for s in (0, 1, 7000, 14998, 14999)],
                 desc='o5m ReferenceTable ring law from cursor positions incl. the wrap-around: after adding A, B reference 1 = B and reference 2 = A; references 0 and > 15000 rejected; strings > 252 bytes not entered',
                 bounds='5 cursor positions, strings of 3 and 2 symbolic bytes', testgen=lambda rnd: [dict(a0=1, a1=2, a2=3, b0=4, b1=5)]),
-        Harness('pbf_dense_nodes', 'decode', h_dense, jobs=[dict(gran=g, layout=l) for g in (100, 1000, 1, 37) for l in ('SGgao', 'gaoSG')] + [dict(gran=100, layout='SG'), dict(gran=250, layout='USgGU')],
+        Harness('pbf_dense_nodes', 'decode', h_dense, jobs=[dict(gran=g, layout=l) for g in (100, 1000, 1, 37) for l in ('SGgao', 'gaoSG')] + [dict(gran=100, layout='SG'), dict(gran=250, layout='USgGU')] + [dict(gran=g, layout='SGgao', meta=0) for g in (100, 250, 1, 1000)],
                 desc='PBFPrimitiveBlockDecoder on a block with two dense nodes: ids/lats/lons are running sums of symbolic zig-zag deltas, coordinates follow (offset + granularity*value)/100 for symbolic offsets, several granularities and field orders, unknown fields skipped',
                 bounds='2 nodes; deltas and offsets 28-bit symbolic; granularity in {1, 37, 100, 250, 1000}', testgen=gen28(['zid0', 'zid1', 'zlat0', 'zlat1', 'zlon0', 'zlon1', 'lat_offset', 'lon_offset']), wall=900),
         Harness('pbf_node_info', 'decode', h_node_info, jobs=[dict(date_gran=d, visible=v, info=i) for (d, v, i) in ((1000, None, True), (1, 1, True), (60000, 0, True), (1000, None, False))],
